@@ -61,6 +61,7 @@ for hdr in ("If-Match", "If-None-Match"):
         [{"kind": "never"}, {"kind": "other", "k": 0}, {"kind": "current"}],
         [{"kind": "never"}, {"kind": "stale", "k": 0}],
         [{"kind": "weak-current"}],
+        [{"kind": "never"}, {"kind": "weak-current"}],
         [{"kind": "unquoted-current"}],
         [{"kind": "halfquoted-current"}],
         [{"kind": "literal", "v": ""}],
@@ -168,7 +169,7 @@ def main(tier, seed):
     c01_store.run(res, tier, seed, examples=25 if tier == "quick" else 300, strategy=store_strategy)
     res.samples = res.samples[:2] + [{"engine": "grid", "case": list(cases[0]), "program": grid_program(cases[0])}] + res.samples[2:3]
     res.assumptions = [
-        "malformed/weak/unquoted header values: either 'treated as not matching' or 400 is accepted; a non-success answer must still change nothing",
+        "malformed / unquoted header values, and weak validators in If-None-Match: either 'treated as not matching' or 400 is accepted; a non-success answer must still change nothing. A weak validator in If-Match is well formed and matches nothing (RFC 7232 3.1: strong comparison), so the request must be answered 412",
         "DELETE of an absent resource with If-Match may answer 404 or 412",
     ]
     return res
